@@ -25,6 +25,8 @@ func Yield(string)                       {}
 func YieldK(string, uint64)              {}
 func AwaitLock(string, uint64, Locker)   {}
 func AwaitRLock(string, uint64, RLocker) {}
+func AwaitLockAny(string, any)           {}
+func AwaitRLockAny(string, any)          {}
 func Fault(string, string) error         { return nil }
 func FS(string) any                      { return nil }
 func H(string) uint64                    { return 0 }
